@@ -2562,6 +2562,13 @@ class sptensor:
     def _set_subtensor(self, key, value):  # noqa: PLR0912, PLR0915
         # Case I(a): RHS is another sparse tensor
         if isinstance(value, ttb.sptensor):
+            # One mode of the right-hand side per slice or index list of the key
+            # (checked before anything is changed)
+            nranges = sum(
+                not isinstance(key_n, (float, int, np.integer)) for key_n in key
+            )
+            if nranges not in (0, value.ndims):
+                assert False, "RHS does not match range size"
             # First, Resize the tensor and check the size match with the tensor
             # that's being inserted.
             m = 0
